@@ -23,7 +23,7 @@ Definition y_body : bstr := car_encode [y_root] y_blocks.
 
 Definition y_srv : server :=
   mkServer (Did true (did_string (x_did 9))) x_ctx
-           [mkHandler (bs "store/add") (std_desc (bs "store/add")) (fun _ => HOk)].
+           [mkHandler (bs "store/add") (std_desc (bs "store/add")) (fun _ => HOk no_fx)].
 
 Definition y_serve := serve_bytes y_digest (fun _ => None) 8 y_srv [] (view_block lid x_keys x_valid x_alg).
 
